@@ -238,12 +238,62 @@ func (u *Unit) fieldOfStruct(sv *StructV, i int) Value {
 			return &StructV{Typ: ft, Fresh: name}
 		}
 		return u.namedFreshValue(ft, name)
+	case sv.Box != nil:
+		key := sv.BoxKey + "." + st.Field(i).Name()
+		if isStructType(ft) {
+			return &StructV{Typ: ft, Box: sv.Box, BoxKey: key}
+		}
+		return u.boxField(*sv.Box, key, ft)
 	case sv.C != nil:
 		a := u.fieldOfStruct(sv.A, i)
 		b := u.fieldOfStruct(sv.B, i)
 		return u.mergeVal(*sv.C, a, b)
 	}
 	return u.zeroValue(ft)
+}
+
+// boxField: leaf field of a struct value stored in an interface box, as a function of the box.
+func (u *Unit) boxField(box Term, key string, ft types.Type) Value {
+	if s := scalarSort(ft); s != "" {
+		f := u.ctx.Fun("ipf:"+key, []string{SInt}, s)
+		return Sc{app(f, s, box), ft}
+	}
+	if sl, ok := ft.Underlying().(*types.Slice); ok {
+		fa := u.ctx.Fun("ipf:"+key+"#arr", []string{SInt}, SInt)
+		fo := u.ctx.Fun("ipf:"+key+"#off", []string{SInt}, SInt)
+		fl := u.ctx.Fun("ipf:"+key+"#len", []string{SInt}, SInt)
+		return SliceV{app(fa, SInt, box), app(fo, SInt, box), app(fl, SInt, box), sl.Elem()}
+	}
+	u.unsupported("boxed struct field of type " + shortType(ft))
+	return u.freshValue(ft, "boxf")
+}
+
+// boxStruct asserts that the payload functions of box equal the fields of sv.
+func (u *Unit) boxStruct(box Term, key string, sv *StructV, depth int) {
+	s, ok := sv.Typ.Underlying().(*types.Struct)
+	if !ok || depth > 4 {
+		return
+	}
+	for i := 0; i < s.NumFields(); i++ {
+		ft := s.Field(i).Type()
+		fv := u.fieldOfStruct(sv, i)
+		k := key + "." + s.Field(i).Name()
+		if isStructType(ft) {
+			if inner, ok := fv.(*StructV); ok {
+				u.boxStruct(box, k, inner, depth+1)
+			}
+			continue
+		}
+		bf := u.boxField(box, k, ft)
+		switch x := bf.(type) {
+		case Sc:
+			u.ctx.Assert(Eq(x.T, u.coerce(u.asSc(fv, ft).T, x.T.Sort)), "box-field")
+		case SliceV:
+			if y, ok := fv.(SliceV); ok {
+				u.ctx.Assert(And(Eq(x.Arr, y.Arr), Eq(x.Off, y.Off), Eq(x.Len, y.Len)), "box-field")
+			}
+		}
+	}
 }
 
 func (u *Unit) withField(sv *StructV, i int, v Value) *StructV {
